@@ -47,6 +47,7 @@ type Step struct {
 	Settle bool              `json:"settle,omitempty"`
 	Meta   string            `json:"meta,omitempty"`
 	Shape  string            `json:"shape,omitempty"`
+	Noop   bool              `json:"noop,omitempty"` // change event: repeats the current value of key k
 	More   map[string]Val    `json:"more,omitempty"` // change event: further keys of the same event
 	Drain  []Step            `json:"drain,omitempty"` // stop / mqlost: delivered by the messaging client while it is being closed
 }
@@ -184,7 +185,11 @@ func (w *World) do(st Step) bool {
 		if st.Val != nil {
 			v = *st.Val
 		}
-		return w.sim.event(st.N, st.Ev, st.A, st.K, v, st.Force, st.More)
+		more := st.More
+		if st.Noop {
+			more = map[string]Val{"\x00noop": {T: "p", V: "1"}}
+		}
+		return w.sim.event(st.N, st.Ev, st.A, st.K, v, st.Force, more)
 	case "inject":
 		return w.sim.inject(st.N, st.Shape)
 	case "mutate":
